@@ -86,6 +86,10 @@ def classify_flow(flow_config, internal_events):
                     out.append(["step", True] if spec.name in internal_events else ["wait", True])
             elif e.op == "_new_action_instance":
                 out.append(["step", True])
+            elif e.op == "match" and isinstance(e.spec, A.Spec) and (e.spec.var_name is not None or e.spec.members is not None):
+                # `match $ref.Event()` / `match Action(..).Event()`: the event NAME is computed from the reference when the head ARRIVES
+                # (head-changed callback -> get_event_name_from_element), which can raise inside slide (unknown event of the object)
+                out.append(["wait", True])
             else:
                 out.append(["wait", False])  # match (arguments are evaluated while MATCHING, not in slide) / unknown op
         elif isinstance(e, A.Label):
